@@ -2,7 +2,7 @@
 """For every confirmed seeded change under /verif/seeded/<id>/ apply patch.diff to a scratch copy of /repo,
 run all checks on it (one process) and record which rules report NEW failing obligations (not failing on the
 unchanged tree).  Writes /verif/seeded/MATRIX.json and MATRIX.md.  Scratch copies are removed at once."""
-import json, os, subprocess, tempfile, shutil, glob, sys
+import json, os, subprocess, tempfile, shutil, glob, sys, re
 env=dict(os.environ, GOFLAGS='-mod=mod', GOPROXY='off', GOSUMDB='off', GOTOOLCHAIN='local', NFSVERIF_NESTED='1')
 env.pop('GOWORK',None)
 def failing(repo):
@@ -22,7 +22,7 @@ if ONLY and os.path.exists('/verif/seeded/MATRIX.json'):
     rows=json.load(open('/verif/seeded/MATRIX.json'))['seeds']
 for d in sorted(glob.glob('/verif/seeded/*/')):
     sid=os.path.basename(d.rstrip('/'))
-    if ONLY and ONLY not in sid: continue
+    if ONLY and not re.search(ONLY, sid): continue
     cj=os.path.join(d,'confirm.json')
     if not os.path.exists(cj): continue
     conf=json.load(open(cj))
